@@ -309,7 +309,7 @@ def _bool_context_exprs(fnode):
     return out
 
 
-def n1(ctx, rels, lookup_rels=()):
+def n1(ctx, rels, lookup_rels=(), scope=None):
     """N1: a parameter whose default is None is a sentinel: it must be tested
     with `is None` / `is not None`, never by truthiness (legal values such as
     vertex 0, the start state '', chart index 0 or a zero label are falsy).
@@ -327,6 +327,11 @@ def n1(ctx, rels, lookup_rels=()):
             continue
         for f in ctx.p.all_functions:
             if f.module is not m:
+                continue
+            top = f
+            while top.parent is not None:
+                top = top.parent
+            if scope is not None and top not in scope:
                 continue
             d = f.defaults()
             nonep = {k for k, v in d.items()
